@@ -23,7 +23,9 @@ impl From<OsCode> for KeyCode {
     #[verifier::external_body]
     fn from(o: OsCode) -> (r: KeyCode) ensures r == kc_of(o) { unimplemented!() }
 }
+#[verifier::external_body]
 pub struct VerifError { verif_opaque: u8 }
+#[verifier::external_body]
 pub struct VerifIoError { verif_opaque: u8 }
 type Result<T> = core::result::Result<T, VerifError>;
 // R13: bail!("..") -> return Err(verif_bail());
@@ -79,6 +81,7 @@ impl SequenceState {
 }
 /// the keyberon layout behind `self.layout.bm()`: the three things read from it
 pub struct BLayout { pub default_layer: usize, pub verif_opaque: u8 }
+#[verifier::external_body]
 pub struct KeycodesIter { verif_opaque: u8 }
 impl KeycodesIter { pub uninterp spec fn items(&self) -> Seq<KeyCode>; }
 impl BLayout {
@@ -106,7 +109,9 @@ impl KanataLayout {
 fn verif_extend(v: &mut Vec<KeyCode>, it: KeycodesIter)
     ensures final(v)@ == old(v)@ + it.items(),
 { unimplemented!() }
+#[verifier::external_body]
 pub struct Overrides { verif_opaque: u8 }
+#[verifier::external_body]
 pub struct OverrideStates { verif_opaque: u8 }
 impl Overrides {
     /// global overrides rewrite the list of keys about to be held (property C13, not decided here):
